@@ -165,6 +165,8 @@ Record Inv (pend : list handle) (s : state) : Prop := mkInv {
   iv_svc : (forall x v, In (x, v) (routed s) -> svc_interesting (svcs s) v = true) /\
            (forall r, r < nreqs s -> svc_interesting (svcs s) (q_svc (reqs s r)) = true);
   iv_pass : forall lt, rtask s = Some lt -> pass_ok s lt;
+  iv_preq : forall lt p st r, rtask s = Some lt -> pcof s lt = PPass p st r ->
+            q_svc (reqs s r) = p_svc p /\ q_kind (reqs s r) = (match st with StRenew => QRenew | StFallback => QSub end);
   iv_route : g_inflight s = false ->
              (forall x, In x (dkeys (routed s)) -> In x (dkeys (subs s)) \/ inflight s x \/ unsub_pending s x) /\
              (forall lt p r, rtask s = Some lt -> pcof s lt = PPass p StRenew r -> ~ doomed s lt);
